@@ -339,3 +339,118 @@ def with_timeout(fn, timeout=5.0):
     finally:
         signal.setitimer(signal.ITIMER_REAL, 0)
         signal.signal(signal.SIGALRM, old)
+
+
+# ---------------------------------------------------------------------------------- trace recorder
+def _pair(n):
+    n &= 0xFFFFFFFF
+    return [n >> 16, n & 0xFFFF]
+
+
+class Recorder(object):
+    """In-process, add-only observation of one validator run (no change to /repo): wraps the module-level
+    functions the decoder looks up through its module globals and logs one event per call, after it returned
+    or raised.  parse_info and fragment-header fields are read from the raw bytes by the harness itself."""
+
+    def __init__(self):
+        self.events = []
+        self.data = b""
+        self.first_sh = None
+        self.last_pi = 0
+
+    def _aligned(self, state):
+        from vc2_conformance.decoder import tell
+
+        byte, bit = tell(state)
+        return byte if bit == 7 else byte + 1
+
+    def install(self):
+        from vc2_conformance.decoder import stream, picture_syntax, fragment_syntax
+
+        rec = self
+        self._saved = (stream.parse_sequence, stream.parse_info, stream.sequence_header, picture_syntax.picture_header, stream.fragment_parse)
+        real_seq, real_pi, real_sh, real_ph, real_fp = self._saved
+
+        def parse_sequence(state):
+            rec.events.append({"ev": "seq"})
+            rec.first_sh = None
+            return real_seq(state)
+
+        def parse_info(state):
+            off = rec._aligned(state)
+            rec.last_pi = off
+            h = rec.data[off : off + 13]
+            ev = {"ev": "pi", "off": off, "have": len(h) == 13, "pfx_ok": h[:4] == b"BBCD", "code": h[4] if len(h) > 4 else -1, "npo": _pair(int.from_bytes(h[5:9], "big")) if len(h) >= 9 else [0, 0], "ppo": _pair(int.from_bytes(h[9:13], "big")) if len(h) == 13 else [0, 0], "exc": ""}
+            try:
+                return real_pi(state)
+            except Exception as e:  # noqa
+                ev["exc"] = type(e).__name__
+                raise
+            finally:
+                rec.events.append(ev)
+
+        def sequence_header(state):
+            start = rec._aligned(state)
+            ev = {"ev": "sh", "ver": 0, "prof": -1, "level": 0, "fields": False, "same": True, "exc": ""}
+            try:
+                r = real_sh(state)
+                end = rec._aligned(state)
+                raw = rec.data[start:end]
+                if rec.first_sh is None:
+                    rec.first_sh = raw
+                ev.update(ver=min(int(state["major_version"]), 1000), prof=min(int(state["profile"]), 1000), level=min(int(state["level"]), 1000), fields=int(state["picture_coding_mode"]) == 1, same=(raw == rec.first_sh))
+                return r
+            except Exception as e:  # noqa
+                ev["exc"] = type(e).__name__
+                raise
+            finally:
+                rec.events.append(ev)
+
+        def picture_header(state):
+            ev = {"ev": "pic", "pn": [0, 0], "exc": ""}
+            try:
+                return real_ph(state)
+            except Exception as e:  # noqa
+                ev["exc"] = type(e).__name__
+                raise
+            finally:
+                ev["pn"] = _pair(int(state.get("picture_number", 0)))
+                rec.events.append(ev)
+
+        def fragment_parse(state):
+            off = rec.last_pi + 13
+            h = rec.data[off : off + 12]
+            cnt = int.from_bytes(h[6:8], "big") if len(h) >= 8 else 0
+            ev = {"ev": "frag", "pn": _pair(int.from_bytes(h[0:4], "big")) if len(h) >= 4 else [0, 0], "cnt": cnt, "x": int.from_bytes(h[8:10], "big") if cnt and len(h) >= 10 else 0, "y": int.from_bytes(h[10:12], "big") if cnt and len(h) >= 12 else 0, "sx": 0, "sy": 0, "exc": ""}
+            try:
+                return real_fp(state)
+            except Exception as e:  # noqa
+                ev["exc"] = type(e).__name__
+                raise
+            finally:
+                ev["sx"] = min(int(state.get("slices_x", 0)), 30000)
+                ev["sy"] = min(int(state.get("slices_y", 0)), 30000)
+                if len(h) >= 8:
+                    rec.events.append(ev)
+
+        stream.parse_sequence = parse_sequence
+        stream.parse_info = parse_info
+        stream.sequence_header = sequence_header
+        picture_syntax.picture_header = picture_header
+        stream.fragment_parse = fragment_parse
+
+    def uninstall(self):
+        from vc2_conformance.decoder import stream, picture_syntax
+
+        stream.parse_sequence, stream.parse_info, stream.sequence_header, picture_syntax.picture_header, stream.fragment_parse = self._saved
+
+    def record(self, data, tid, meta=None):
+        """Run the validator on `data`; returns (events incl. begin/end, outcome dict)."""
+        self.events = []
+        self.data = data
+        self.first_sh = None
+        r = guarded_validate(data)
+        out = [dict({"ev": "begin"}, **(meta or {}))] + self.events + [{"ev": "end", "outcome": r["outcome"], "exc": r["exc"] or ""}]
+        for e in out:
+            e["tid"] = tid
+        return out, r
